@@ -295,7 +295,10 @@ func (pr *proofRunner) mutate(rng *rand.Rand, probes [][]byte) int {
 			case 5:
 				pf[j] = pf[j][:rng.Intn(len(pf[j]))]
 			case 6:
-				pf[j][len(pf[j])-1] = byte(rng.Intn(4)) // another node type
+				pf[j][len(pf[j])-1] = (pf[j][len(pf[j])-1] + 1 + byte(rng.Intn(3))) % 4 // another node type
+			}
+			if pf[j] != nil && bytes.Equal(pf[j], src[j]) {
+				continue
 			}
 			k := probes[rng.Intn(len(probes))]
 			_, present := ps.contents[string(k)]
